@@ -980,10 +980,13 @@ _isinstance = isinstance
 
 def sx_isinstance(o, t):
     # the builtins `int` / `str` may be shadowed by the shims in the module under test
-    if t is sx_int:
-        t = int
-    elif _isinstance(t, tuple) and sx_int in t:
-        t = tuple(int if x is sx_int else x for x in t)
+    def unshim(x):
+        if x is sx_int:
+            return int
+        if getattr(x, '__name__', '') == 'sx_str':
+            return str
+        return x
+    t = tuple(unshim(x) for x in t) if _isinstance(t, tuple) else unshim(t)
     if _isinstance(o, SInt) and (t is int or (_isinstance(t, tuple) and int in t)):
         return True
     if _isinstance(o, SBytes) and (t in (bytes, bytearray) or
